@@ -66,7 +66,7 @@ PROPERTIES = {
                         'dict, change point or marker list; setting objects are immutable)'],
     },
     'C03': {
-        'groups': ['Q1', 'Q2', 'Q3', 'R4', 'P3', 'K1'],
+        'groups': ['Q1', 'Q2', 'Q3', 'R4', 'P3', 'K1', 'K2'],
         'level': 'other',
         'explanation': 'The real to_str and the real set_ansi_str are executed symbolically one after the other on bounded-symbolic '
                        'tables.  Q1: AnsiString(str(s)) has the text of s and every character (Skolemised position) has the '
@@ -75,7 +75,8 @@ PROPERTIES = {
                        'parsable and is_formatting_parsable() is True; invalid settings (zz, 1m, 31;A, @) and settings holding two '
                        'parameter groups are included.  Q3: str(s) after simplify();simplify() equals str(s) after one simplify(), '
                        'and str(AnsiString(str(s))) == str(s) for a simplified s.  R4 and P3 are the separate contracts of the '
-                       'renderer and the parser the round trip is composed of.',
+                       'renderer and the parser the round trip is composed of; K1/K2 are the contracts of AnsiSetting.valid / parsable, on which '
+                       'simplify() and the optimising renderer decide what to keep and what to merge.',
         'trusted_base': ['terminal oracle (term_apply / eff_state in contracts/spec.py)', 'tokenizer summary B1 (discharged by group B1)'],
         'assumptions': ['base text without ESC', 'the effective style of a character with invalid settings is that of its valid '
                         'settings (an invalid setting ends the escape sequence: no style is defined for it)',
